@@ -113,6 +113,11 @@ Step ==
          /\ (IF Fault.kind = "garbage" /\ Fault.at >= j /\ Fault.at < j + Len(r.out) /\ NgapDecode(Garbage(r.out[Fault.at - j + 1])).ok
              THEN PrintT("REJECT line=" \o ToString(k) \o " id=" \o ToString(k) \o " ev=Final why=HARNESS: the garbage is a decodable NGAP PDU for the specification")
              ELSE TRUE)
+         \* a network that takes its time: the answer to this UE's PDU session establishment request leaves after setupDelay seconds
+         \* (longer than the 16 s of timer T3580); the emulator has nothing to do but wait
+         /\ (IF Online /\ r.note = "PDUSessionEstablishmentRequest" /\ r.abs.u \in 1..Len(Scn.ues) /\ "setupDelay" \in DOMAIN Choice(r.abs.u)
+                /\ Choice(r.abs.u).setupDelay > 0 /\ Len(r.out) > 0
+             THEN IOExec(<<"sleep", ToString(Choice(r.abs.u).setupDelay)>>).exitValue = 0 ELSE TRUE)
          /\ SendAll(j, r.out)
          /\ amf' = r.amf /\ j' = j + Len(r.out) /\ k' = k + 1
          /\ nbad' = nbad + Cardinality(r.complaints)
